@@ -180,9 +180,25 @@ func (env *Env) lookupName(name string) (Val, bool) {
 	return Val{}, false
 }
 
+func sortType(s Sort) types.Type {
+	switch s {
+	case SBool:
+		return untypedBool
+	case SStr:
+		return types.Typ[types.String]
+	}
+	return untypedInt
+}
+
 func (env *Env) ident(name string) (Val, error) {
 	if v, ok := env.lookupName(name); ok {
 		return v, nil
+	}
+	if strings.HasPrefix(name, "$") && name != "$idx" {
+		if sort, ok := env.e.P.Contracts.Ghosts[name[1:]]; ok {
+			return Val{T: sortType(sort), L: []Term{env.st.comp("X."+name[1:], sort)}}, nil
+		}
+		return Val{}, fmt.Errorf("undeclared ghost component %s", name)
 	}
 	// local variable of the current function (current value)
 	if env.fr != nil {
@@ -222,7 +238,8 @@ func (env *Env) ident(name string) (Val, error) {
 			}
 			pv, ok := env.fr.vals[a]
 			if !ok {
-				return Val{}, fmt.Errorf("variable %s is not yet allocated at this point", name)
+				// declared later on this path: an arbitrary value (uses must be guarded, e.g. by called())
+				return env.e.havocVal(False, "undeclared."+name, a.Type().(*types.Pointer).Elem()), nil
 			}
 			return env.e.load(env.st, pv.Addr), nil
 		}
@@ -286,7 +303,16 @@ func (env *Env) field(xv Val, name string) (Val, error) {
 				na := *a
 				na.Off += off
 				na.T = st.Field(i).Type()
-				return env.e.load(env.st, &na), nil
+				out := env.e.load(env.st, &na)
+				if len(env.qvars) == 0 && a.Kind != aCell {
+					// references read from memory follow the numbering convention (see outsideRef)
+					for i, l := range Layout(out.T) {
+						if (l.Kind == kRef || l.Kind == kSlArr || l.Kind == kIfRef) && len(out.L[i].S) < 400 {
+							env.e.outsideRef(True, out.L[i])
+						}
+					}
+				}
+				return out, nil
 			}
 		}
 		return Val{}, fmt.Errorf("type %v has no field %s", pt.Elem(), name)
@@ -304,6 +330,11 @@ func (env *Env) field(xv Val, name string) (Val, error) {
 }
 
 func (env *Env) index(xv, iv Val) (Val, error) {
+	if len(xv.L) == 1 && strings.HasPrefix(string(xv.L[0].Sort), "(Array") {
+		es := arrayElemSort(xv.L[0].Sort)
+		k := env.e.flat(env.st, env.reach, iv)[0]
+		return Val{T: sortType(es), L: []Term{Select(xv.L[0], k, es)}}, nil
+	}
 	switch t := xv.T.Underlying().(type) {
 	case *types.Slice:
 		et := t.Elem()
@@ -324,7 +355,9 @@ func (env *Env) index(xv, iv Val) (Val, error) {
 		}
 	}
 	if len(xv.L) == 1 && strings.HasPrefix(string(xv.L[0].Sort), "(Array") {
-		return Val{T: untypedInt, L: []Term{Select(xv.L[0], iv.scalar(), arrayElemSort(xv.L[0].Sort))}}, nil
+		es := arrayElemSort(xv.L[0].Sort)
+		k := env.e.flat(env.st, env.reach, iv)[0]
+		return Val{T: sortType(es), L: []Term{Select(xv.L[0], k, es)}}, nil
 	}
 	return Val{}, fmt.Errorf("cannot index %v", xv.T)
 }
@@ -444,16 +477,13 @@ func (env *Env) callExpr(n ECall) (Val, error) {
 		} else {
 			c.st = env.e.old
 		}
-		if env.oldBind != nil {
-			c.bind = env.oldBind
-		}
 		if env.fr != nil && env.fr.top && env.loopEntry == nil {
 			// inside the function under verification old(x) of a parameter is its entry value
 			nb := map[string]Val{}
-			for k, v := range env.bind {
+			for k, v := range env.e.params {
 				nb[k] = v
 			}
-			for k, v := range env.e.params {
+			for k, v := range env.bind {
 				nb[k] = v
 			}
 			c.bind = nb
@@ -536,18 +566,39 @@ func (env *Env) callExpr(n ECall) (Val, error) {
 			}
 			return boolVal(cl.Reach), nil
 		}
-		if cl == nil {
-			// call site never reached on any path: any value will do, guarded by called()
-			if env.e.knownLabel(lbl) {
-				return Val{T: untypedInt, L: []Term{env.e.fresh("unreached", SInt)}}, nil
-			}
-			return Val{}, fmt.Errorf("no call site %s in %s", lbl, env.e.FuncID)
-		}
 		idx := 0
 		if len(n.Args) > 1 {
 			if iv, ok := n.Args[1].(EInt); ok {
 				idx, _ = strconv.Atoi(iv.Val)
 			}
+		}
+		if cl == nil {
+			// call site not reached so far: an arbitrary value of the right type (uses are guarded by called())
+			c := env.e.labelCall(lbl)
+			if c == nil {
+				return Val{}, fmt.Errorf("no call site %s in %s", lbl, env.e.FuncID)
+			}
+			var t types.Type
+			if fname == "res" {
+				rs := c.Signature().Results()
+				if idx >= rs.Len() {
+					return Val{}, fmt.Errorf("call %s has %d results", lbl, rs.Len())
+				}
+				t = rs.At(idx).Type()
+			} else {
+				var ats []types.Type
+				if c.IsInvoke() {
+					ats = append(ats, c.Value.Type())
+				}
+				for _, a := range c.Args {
+					ats = append(ats, a.Type())
+				}
+				if idx >= len(ats) {
+					return Val{}, fmt.Errorf("call %s has %d arguments", lbl, len(ats))
+				}
+				t = ats[idx]
+			}
+			return env.e.havocVal(False, "unreached", t), nil
 		}
 		if fname == "res" {
 			if idx >= len(cl.Results) {
@@ -593,6 +644,19 @@ func (env *Env) callExpr(n ECall) (Val, error) {
 			return Val{}, fmt.Errorf("visited() outside a map-range loop")
 		}
 		return boolVal(Select(env.st.comp(name, ArraySort(k.Sort, SBool)), k, SBool)), nil
+	case "bxor", "bor", "band":
+		if err := argN(2); err != nil {
+			return Val{}, err
+		}
+		a, err := env.evalTerm(n.Args[0])
+		if err != nil {
+			return Val{}, err
+		}
+		b, err := env.evalTerm(n.Args[1])
+		if err != nil {
+			return Val{}, err
+		}
+		return intVal(T(SInt, "(%s %s %s)", fname, a, b)), nil
 	case "hasprefix", "lower", "strfold":
 		var ts []Term
 		for _, a := range n.Args {
@@ -667,6 +731,38 @@ func (env *Env) callExpr(n ECall) (Val, error) {
 		name := "E." + typeID(sl.Elem()) + "."
 		arr := env.st.comp(name, ArraySort(SInt, ArraySort(SInt, SInt)))
 		return Val{T: types.Typ[types.String], L: []Term{T(SStr, "(bytes2str %s %s %s)", Select(arr, v.L[0], ArraySort(SInt, SInt)), v.L[1], v.L[2])}}, nil
+	case "zeroed":
+		// zeroed(p): the object p points to (p a pointer, or an interface holding a pointer) is all zero
+		if err := argN(1); err != nil {
+			return Val{}, err
+		}
+		v, err := env.eval(n.Args[0])
+		if err != nil {
+			return Val{}, err
+		}
+		t := v.T
+		ref := Term{}
+		if v.Dyn != nil {
+			t = v.Dyn
+			ref = v.L[1]
+		} else if _, isIface := t.Underlying().(*types.Interface); isIface {
+			env.e.note("zeroed() of an interface with unknown dynamic type treated as true")
+			return boolVal(True), nil
+		}
+		pt, ok := t.Underlying().(*types.Pointer)
+		if !ok {
+			return Val{}, fmt.Errorf("zeroed() needs a pointer")
+		}
+		if ref.S == "" {
+			ref = env.e.flat(env.st, env.reach, v)[0]
+		}
+		cur := env.e.load(env.st, &Addr{Kind: aHeap, Ref: ref, Root: pt.Elem(), T: pt.Elem()})
+		z := zeroVal(pt.Elem())
+		var cs []Term
+		for i := range cur.L {
+			cs = append(cs, Eq(cur.L[i], z.L[i]))
+		}
+		return boolVal(And(cs...)), nil
 	case "fresh":
 		if err := argN(1); err != nil {
 			return Val{}, err
@@ -731,7 +827,7 @@ func (env *Env) callExpr(n ECall) (Val, error) {
 			}
 			args = append(args, v)
 		}
-		if len(args) != len(sf.Params) {
+		if len(args) != len(sf.Params) && sf.Body != nil {
 			return Val{}, fmt.Errorf("spec function %s expects %d arguments", fname, len(sf.Params))
 		}
 		if sf.Body != nil {
@@ -745,6 +841,9 @@ func (env *Env) callExpr(n ECall) (Val, error) {
 				c.bind[p.Name] = args[i]
 			}
 			c.fr = nil
+			if sf.Pkg != "" {
+				c.pkg = sf.Pkg
+			}
 			return c.eval(sf.Body)
 		}
 		var sorts []Sort
@@ -756,7 +855,7 @@ func (env *Env) callExpr(n ECall) (Val, error) {
 			}
 		}
 		rs := sortOfTypeName(sf.Result)
-		fn := env.e.declareFun("spec."+fname, sorts, rs)
+		fn := env.e.declareFun(fmt.Sprintf("spec.%s/%d", fname, len(sorts)), sorts, rs)
 		var rt types.Type = untypedInt
 		if rs == SBool {
 			rt = untypedBool
@@ -813,6 +912,21 @@ func (e *Engine) visitedName(fr *Frame) string {
 		}
 	}
 	return ""
+}
+
+func (e *Engine) labelCall(lbl string) *ssa.CallCommon {
+	name, ord := lbl, 1
+	if i := strings.Index(lbl, "#"); i > 0 {
+		name = lbl[:i]
+		ord, _ = strconv.Atoi(lbl[i+1:])
+	}
+	for c, k := range e.P.callOrdinals[e.Fn] {
+		id, _ := e.P.calleeID(c)
+		if labelName(id) == name && k == ord {
+			return c
+		}
+	}
+	return nil
 }
 
 func (e *Engine) knownLabel(lbl string) bool {
